@@ -340,7 +340,8 @@ def run(tape, scenario, want_c11=False):
     async def main(loop):
         if parallel:
             from ebpfcat.lock import FMMULock, LockFile
-            ec.mbx_lock_file = LockFile("/run/ebpf/sim0", *ec.terminal_addr_range)
+            ec.mbx_lock_file = LockFile("/run/ebpf/sim0", ec.terminal_addr_range[0],
+                                          ec.terminal_addr_range[1] + 1)   # as ParallelEtherCat.run makes it
             ec.fmmu_lock_file = FMMULock("/run/ebpf/sim0.fmmu")
             await EtherCat.connect(ec)
         else:
